@@ -105,6 +105,11 @@ def check_spellings(ctx, case, styles=(0, 1, 2, 3, 4), respell=hb.RESPELL):
         d = tempfile.mkdtemp(prefix="xv-xi-")
         try:
             part = rb.render_doc(kids[0]["el"], 0)
+            # compositions of rewrites: the included part may itself carry markup inside its character data
+            for how in ("comment-in-text", "pi-in-text"):
+                if (len(part) + len(how)) % 3 == 0:
+                    part = hb.respell(part, how) if "</" in part else part
+                    break
             with open(os.path.join(d, "part.xml"), "w", encoding="utf-8") as f:
                 f.write(part)
             doc2 = dict(case["doc"])
